@@ -278,9 +278,25 @@ theorem addRep_none_of_not_given {rec : P} {m : Mode} {o : Opts} (h : o.addition
   | yes => rw [ha] at h; simp [Addition.given] at h
   | typed T => rw [ha] at h; simp [Addition.given] at h
 
+theorem depsReports_false (rec : P) (m : Mode) (o : Opts) (decl : List FieldDecl) (ex : List String) (data : Data) :
+    depsReports rec m o decl ex data false = [] := by
+  simp [depsReports, trace, depsStep]
+
+theorem depsReports_true (rec : P) (m : Mode) (o : Opts) (decl : List FieldDecl) (ex : List String) (data : Data) :
+    depsReports rec m o decl ex data true =
+      if (depsLack rec m o decl ex data).isEmpty then [] else [{ kind := .depsAbsence }] := by
+  unfold depsReports depsStep
+  by_cases h : (depsLack rec m o decl ex data).isEmpty = true
+  · simp [trace, h]
+  · simp [trace, h]
+
+theorem countReports_false (o : Opts) (n : Nat) : countReports o n false = [] := by
+  simp [countReports, trace]
+
 theorem reportsFF_eq (rec : P) (m : Mode) (o : Opts) (decl : List FieldDecl) (ex : List String) (data : Data) :
-    reportsFF rec m o decl ex data = decl.filterMap (h1 rec m o data ex) ++ data.filterMap (h2 rec m o decl ex) := by
+    reportsFF rec m o decl ex false data = decl.filterMap (h1 rec m o data ex) ++ data.filterMap (h2 rec m o decl ex) := by
   unfold reportsFF
+  rw [depsReports_false, List.nil_append]
   rw [trace_filterMap (h1 rec m o data ex) (ffStep1_noAbort rec m o data ex) (ffStep1_err? rec m o data ex)]
   by_cases ha : o.addition.given = true
   · simp only [ha, if_true]
@@ -298,9 +314,9 @@ theorem reportsFF_eq (rec : P) (m : Mode) (o : Opts) (decl : List FieldDecl) (ex
 /-! ### field-first: reports and items -/
 
 theorem ff_sound (rec : P) (m : Mode) (o : Opts) (decl : List FieldDecl) (ex : List String) (data : Data) (e : Err)
-    (he : e ∈ reportsFF rec m o decl ex data) :
+    (he : e ∈ reportsFF rec m o decl ex false data) :
     ∃ i, e.item = some i ∧ isItem decl data i = true ∧
-      reportsFF rec m o (declOf decl i) ex (dataOf data i) ≠ [] := by
+      reportsFF rec m o (declOf decl i) ex false (dataOf data i) ≠ [] := by
   rw [reportsFF_eq] at he
   rcases List.mem_append.mp he with he | he
   · obtain ⟨f, hf, hfe⟩ := List.mem_filterMap.mp he
@@ -336,8 +352,8 @@ theorem ff_sound (rec : P) (m : Mode) (o : Opts) (decl : List FieldDecl) (ex : L
       cases hmem
 
 theorem ff_complete (rec : P) (m : Mode) (o : Opts) (decl : List FieldDecl) (ex : List String) (data : Data)
-    (i : String) (hne : reportsFF rec m o (declOf decl i) ex (dataOf data i) ≠ []) :
-    ∃ e ∈ reportsFF rec m o decl ex data, e.item = some i := by
+    (i : String) (hne : reportsFF rec m o (declOf decl i) ex false (dataOf data i) ≠ []) :
+    ∃ e ∈ reportsFF rec m o decl ex false data, e.item = some i := by
   rw [reportsFF_eq] at hne
   rw [reportsFF_eq]
   obtain ⟨e', he'⟩ := List.exists_mem_of_ne_nil _ hne
@@ -392,8 +408,9 @@ theorem hasKey_dataOf (data : Data) (i : String) : hasKey i (dataOf data i) = ha
   exact any_filter_self (fun p => p.1 == i) data
 
 theorem reportsDF_eq (rec : P) (m : Mode) (o : Opts) (decl : List FieldDecl) (ex : List String) (data : Data) :
-    reportsDF rec m o decl ex data = data.filterMap (g1 rec m o decl ex) ++ decl.filterMap (g2 data ex) := by
+    reportsDF rec m o decl ex false data = data.filterMap (g1 rec m o decl ex) ++ decl.filterMap (g2 data ex) := by
   unfold reportsDF
+  rw [depsReports_false, List.append_nil]
   rw [trace_filterMap (g1 rec m o decl ex) (dfStep1_noAbort rec m o decl ex) (dfStep1_err? rec m o decl ex),
     trace_filterMap (g2 data ex) (dfStep2_noAbort data ex) (dfStep2_err? data ex)]
 
@@ -404,9 +421,9 @@ theorem mem_declOf {decl : List FieldDecl} {i : String} {f : FieldDecl} : f ∈ 
   simp [declOf]
 
 theorem df_sound (rec : P) (m : Mode) (o : Opts) (decl : List FieldDecl) (ex : List String)
-    (data : Data) (e : Err) (he : e ∈ reportsDF rec m o decl ex data) :
+    (data : Data) (e : Err) (he : e ∈ reportsDF rec m o decl ex false data) :
     ∃ i, e.item = some i ∧ isItem decl data i = true ∧
-      reportsDF rec m o (declOf decl i) ex (dataOf data i) ≠ [] := by
+      reportsDF rec m o (declOf decl i) ex false (dataOf data i) ≠ [] := by
   rw [reportsDF_eq] at he
   rcases List.mem_append.mp he with he | he
   · obtain ⟨kv, hkv, hke⟩ := List.mem_filterMap.mp he
@@ -439,8 +456,8 @@ theorem df_sound (rec : P) (m : Mode) (o : Opts) (decl : List FieldDecl) (ex : L
       cases hmem
 
 theorem df_complete (rec : P) (m : Mode) (o : Opts) (decl : List FieldDecl) (ex : List String)
-    (data : Data) (i : String) (hne : reportsDF rec m o (declOf decl i) ex (dataOf data i) ≠ []) :
-    ∃ e ∈ reportsDF rec m o decl ex data, e.item = some i := by
+    (data : Data) (i : String) (hne : reportsDF rec m o (declOf decl i) ex false (dataOf data i) ≠ []) :
+    ∃ e ∈ reportsDF rec m o decl ex false data, e.item = some i := by
   rw [reportsDF_eq] at hne
   rw [reportsDF_eq]
   obtain ⟨e', he'⟩ := List.exists_mem_of_ne_nil _ hne
@@ -461,30 +478,96 @@ theorem df_complete (rec : P) (m : Mode) (o : Opts) (decl : List FieldDecl) (ex 
 /-! ### both strategies -/
 
 theorem reportsX_sound (rec : P) (m : Mode) (o : Opts) (decl : List FieldDecl) (ex : List String)
-    (data : Data) (e : Err) (he : e ∈ reportsX rec m o decl ex data) :
+    (data : Data) (e : Err) (he : e ∈ reportsX rec m o decl ex false data) :
     ∃ i, e.item = some i ∧ isItem decl data i = true ∧
-      reportsX rec m o (declOf decl i) ex (dataOf data i) ≠ [] := by
+      reportsX rec m o (declOf decl i) ex false (dataOf data i) ≠ [] := by
   unfold reportsX at he ⊢
+  simp only [countReports_false, List.nil_append] at he ⊢
   by_cases hd : o.dfs = true
   · simp only [hd, if_true] at he ⊢; exact df_sound rec m o decl ex data e he
   · simp only [hd, Bool.false_eq_true, if_false] at he ⊢; exact ff_sound rec m o decl ex data e he
 
 theorem reportsX_complete (rec : P) (m : Mode) (o : Opts) (decl : List FieldDecl) (ex : List String)
-    (data : Data) (i : String) (hne : reportsX rec m o (declOf decl i) ex (dataOf data i) ≠ []) :
-    ∃ e ∈ reportsX rec m o decl ex data, e.item = some i := by
+    (data : Data) (i : String) (hne : reportsX rec m o (declOf decl i) ex false (dataOf data i) ≠ []) :
+    ∃ e ∈ reportsX rec m o decl ex false data, e.item = some i := by
   unfold reportsX at hne ⊢
+  simp only [countReports_false, List.nil_append] at hne ⊢
   by_cases hd : o.dfs = true
   · simp only [hd, if_true] at hne ⊢; exact df_complete rec m o decl ex data i hne
   · simp only [hd, Bool.false_eq_true, if_false] at hne ⊢; exact ff_complete rec m o decl ex data i hne
 
-theorem reports_sound (rec : P) (m : Mode) (o : Opts) (decl : List FieldDecl)
-    (data : Data) (e : Err) (he : e ∈ reports rec m o decl data) :
-    ∃ i, e.item = some i ∧ isItem decl data i = true ∧ reports rec m o (declOf decl i) (dataOf data i) ≠ [] :=
-  reportsX_sound rec m o decl [] data e he
+/-! ### the errors of the whole mapping -/
 
-theorem reports_complete (rec : P) (m : Mode) (o : Opts) (decl : List FieldDecl)
-    (data : Data) (i : String) (hne : reports rec m o (declOf decl i) (dataOf data i) ≠ []) :
-    ∃ e ∈ reports rec m o decl data, e.item = some i :=
-  reportsX_complete rec m o decl [] data i hne
+theorem countReports_true (o : Opts) (n : Nat) :
+    countReports o n true =
+      (match o.maxParams with
+        | some k => if k != 0 && n > k then [({ kind := .paramsExceed } : Err)] else []
+        | none => []) ++
+      (match o.minParams with
+        | some k => if k != 0 && n < k then [({ kind := .paramsLack } : Err)] else []
+        | none => []) := by
+  unfold countReports
+  simp only [if_true, trace, countStep, Bool.false_eq_true, if_false]
+  cases o.maxParams with
+  | none =>
+    cases o.minParams with
+    | none => rfl
+    | some k2 => by_cases h2 : (k2 != 0 && decide (n < k2)) = true <;> simp [h2]
+  | some k1 =>
+    by_cases h1 : (k1 != 0 && decide (n > k1)) = true
+    · cases o.minParams with
+      | none => simp [h1]
+      | some k2 => by_cases h2 : (k2 != 0 && decide (n < k2)) = true <;> simp [h1, h2]
+    · cases o.minParams with
+      | none => simp [h1]
+      | some k2 => by_cases h2 : (k2 != 0 && decide (n < k2)) = true <;> simp [h1, h2]
+
+theorem mem_shuffle_df {α : Type} (A B D L1 L2 : List α) (e : α) :
+    e ∈ (A ++ B) ++ (L1 ++ (L2 ++ D)) ↔ e ∈ (A ++ B) ++ D ∨ e ∈ L1 ++ L2 := by
+  simp only [List.mem_append]
+  grind
+
+theorem mem_shuffle_ff {α : Type} (A B D L1 L2 : List α) (e : α) :
+    e ∈ (A ++ B) ++ (L1 ++ (D ++ L2)) ↔ e ∈ (A ++ B) ++ D ∨ e ∈ L1 ++ L2 := by
+  simp only [List.mem_append]
+  grind
+
+/-- with the checks of the whole mapping on, a parse reports the item-level errors plus `globalReports` -/
+theorem mem_reportsX_true (rec : P) (m : Mode) (o : Opts) (decl : List FieldDecl) (ex : List String) (data : Data)
+    (e : Err) :
+    e ∈ reportsX rec m o decl ex true data ↔
+      e ∈ globalReports rec m o decl ex data ∨ e ∈ reportsX rec m o decl ex false data := by
+  unfold reportsX globalReports
+  rw [countReports_true, countReports_false]
+  by_cases hd : o.dfs = true
+  · simp only [hd, if_true, reportsDF, depsReports_true, depsReports_false, List.append_nil, List.nil_append]
+    exact mem_shuffle_df _ _ _ _ _ e
+  · simp only [hd, Bool.false_eq_true, if_false, reportsFF, depsReports_true, depsReports_false, List.nil_append]
+    exact mem_shuffle_ff _ _ _ _ _ e
+
+theorem globalReports_item (rec : P) (m : Mode) (o : Opts) (decl : List FieldDecl) (ex : List String) (data : Data)
+    (e : Err) (he : e ∈ globalReports rec m o decl ex data) : e.item = none := by
+  unfold globalReports at he
+  simp only [List.mem_append] at he
+  rcases he with (he | he) | he
+  · cases hm : o.maxParams with
+    | none => rw [hm] at he; simp at he
+    | some k =>
+      rw [hm] at he
+      simp only at he
+      split at he
+      · simp only [List.mem_singleton] at he; rw [he]
+      · simp at he
+  · cases hm : o.minParams with
+    | none => rw [hm] at he; simp at he
+    | some k =>
+      rw [hm] at he
+      simp only at he
+      split at he
+      · simp only [List.mem_singleton] at he; rw [he]
+      · simp at he
+  · split at he
+    · simp at he
+    · simp only [List.mem_singleton] at he; rw [he]
 
 end Utv.C10
